@@ -27,7 +27,23 @@ var charOf = func() map[rune]string {
 
 // Patterns maps pattern ids of JV.PatIds to regular expressions with identical RE2 / ECMA-262 meaning.
 var Patterns = map[string]string{"p_a": "^a", "p_b": "b$", "p_ab": "^[ab]*$", "p_2": "^.{2}$",
-	"p_pct": "^[ab%]*$", "p_esc": `^\x61+$`}
+	"p_pct": "^[ab%]*$", "p_esc": `^\x61+$`,
+	"p_qt": `^"a"$`, "p_cls": `^\w+\s?$`, "p_bt": "^a`b$"}
+
+// Descriptions maps hostile-text ids (spec/MC_C01.tla) to text.
+var Descriptions = map[string]string{
+	"d_nl":      "first line of a description that is long enough to be wrapped by the comment writer of the generator\nsecond line\n\nfourth line after an empty one",
+	"d_cr":      "carriage\rreturn and \r\n windows line end",
+	"d_cmt":     "ends a block comment */ and starts one /* again",
+	"d_bt":      "has a ` backtick and `two`",
+	"d_qt":      "has \"double\" and 'single' quotes and a \\ backslash",
+	"d_long":    strings.Repeat("Supercalifragilistic", 15),
+	"d_shortnl": "short\ntext",
+	"d_slashes": "// looks like a comment already // twice",
+	"d_uni":     "ünïcödé 日本語 \U0001F600 and a non-breaking\u00a0space",
+	"d_pct":     "100% of %s %d %v %!",
+	"d_tab":     "tab\tseparated\tand trailing spaces   ",
+}
 
 // FormatText holds the canonical string of each format (JV "fmt" documents).
 var FormatText = map[string]string{"date": "2006-01-02", "time": "15:04:05", "date-time": "2006-01-02T15:04:05Z",
@@ -236,8 +252,20 @@ func Schema(v any, ren RefRename) (string, error) {
 				return "", fmt.Errorf("unknown pattern id %v", val)
 			}
 			add(k, quote(p))
-		case "format", "title", "description":
+		case "format":
 			add(k, quote(str(val)))
+		case "title", "description":
+			t := str(val)
+			if d, ok := Descriptions[t]; ok {
+				t = d
+			}
+			add(k, quote(t))
+		case "goJSONSchema":
+			b, err := json.Marshal(val)
+			if err != nil {
+				return "", err
+			}
+			add(k, string(b))
 		case "items":
 			t, err := Schema(val, ren)
 			if err != nil {
